@@ -917,6 +917,9 @@ func (c *FnCtx) loop(st *State, n int, spec *LoopSpec, node ast.Stmt, body ast.N
 	for _, inv := range spec.Invariants {
 		c.assume(head, c.evalClause(head, inv, nil))
 	}
+	for _, u := range spec.Uses {
+		c.useLemma(head, u)
+	}
 	var m0 string
 	if spec.Decreases != nil {
 		mv, _ := c.bvOf(c.evalCExpr(head, spec.Decreases.Expr, nil), pos)
@@ -946,4 +949,44 @@ func (c *FnCtx) loop(st *State, n int, spec *LoopSpec, node ast.Stmt, body ast.N
 		}
 	}
 	return Outcome{normal: c.mergeStates(append([]*State{exit}, o.breaks...), fmt.Sprintf("x%d", n))}
+}
+
+// useLemma assumes an instance of a separately proved lemma:  use name(args).
+func (c *FnCtx) useLemma(st *State, u Clause) {
+	call, ok := u.Expr.(*ast.CallExpr)
+	if !ok {
+		c.unsupportedf(token.NoPos, "use: expected lemma(args)")
+		return
+	}
+	name := call.Fun.(*ast.Ident).Name
+	ct := c.prog.Contracts.ByKey["lemma:"+name]
+	if ct == nil {
+		c.unsupportedf(token.NoPos, "use: unknown lemma %s", name)
+		return
+	}
+	c.usedLemmas["lemma:"+name] = true
+	vars := map[string]Val{}
+	i := 0
+	for _, f := range ct.Decl.Type.Params.List {
+		tn := types.ExprString(f.Type)
+		for range f.Names {
+			var want *SV
+			if cw, ok := convWidths[tn]; ok {
+				want = &SV{"", BV(cw.w), cw.sg}
+			}
+			if i < len(call.Args) {
+				vars[ct.Params[i]] = c.mat(c.ce(st, call.Args[i], c.cenvDefault(nil), want), want)
+			}
+			i++
+		}
+	}
+	env := &CEnv{vars: vars, old: st, oldV: vars}
+	var hyps, concl []string
+	for _, rq := range ct.Requires {
+		hyps = append(hyps, c.evalClause(st, rq, env))
+	}
+	for _, en := range ct.Ensures {
+		concl = append(concl, c.evalClause(st, en, env))
+	}
+	c.assume(st, implies(and(hyps...), and(concl...)))
 }
